@@ -174,7 +174,9 @@ def run(ctx):
             "ended_by_cancel", "ended_by_stop", "ended_by_feed_close", "ended_by_overflow", "attempts_while_ending",
             "headers_taken_while_ending", "consumed_while_running", "scenarios_two_subscriptions",
             "steps_applied_cex_orig", "steps_applied_tlc", "scenarios_systematic", "scenarios_streak",
-            "streak_closed_within_bound"]
+            "streak_closed_within_bound", "scenarios_absent", "scenarios_overlap",
+            "overflow_header_absent_outside_every_row_range", "overflow_header_absent_inside_a_row_range",
+            "responses_for_blocks_outside_every_row_range", "responses_for_blocks_absent_inside_a_row_range"]
     missing = [k for k in need if c.get(k, 0) <= 0]
     if missing and rep.get("counters"):
         ctx.inconclusive("vacuity: the driver never exercised %s" % missing)
